@@ -493,9 +493,11 @@ class Engine:
             # two-way branch on a symbolic boolean: fork with assumptions
             false_t, true_t = t["tgts"][0], t["else"]
             st2 = st.fork()
+            nv = Cond(v.kind, v.a, v.b, not v.neg)
+            v = Cond(v.kind, v.a, v.b, v.neg)
             ok1 = self.assume(st, v)
             st.frames[-1].bb = true_t
-            ok2 = self.assume(st2, v.negate())
+            ok2 = self.assume(st2, nv)
             st2.frames[-1].bb = false_t
             if ok2:
                 work.append(st2)
@@ -512,8 +514,15 @@ class Engine:
 
     def assume(self, st, c):
         """record c as true on this path; returns False when c is contradictory with what is known"""
+        def trivial(x):
+            return isinstance(x, Q) and x.is_poly() and x.n.is_const() and (c.b is None or (isinstance(c.b, Q) and c.b.is_poly() and c.b.n.is_const()))
+        # a condition on constants is decided, not assumed
+        if c.kind == "zero" and isinstance(c.a, Q) and c.a.is_poly() and c.a.n.is_const():
+            return (c.a.is_zero()) != c.neg
+        if c.kind == "eq" and isinstance(c.a, Q) and isinstance(c.b, Q) and (c.a - c.b).is_poly() and (c.a - c.b).n.is_const():
+            return ((c.a - c.b).is_zero()) != c.neg
         for a in st.assume:
-            if a.kind == c.kind and repr(a.a) == repr(c.a) and repr(a.b) == repr(c.b):
+            if a.kind == c.kind and not trivial(a.a) and repr(a.a) == repr(c.a) and repr(a.b) == repr(c.b):
                 if a.neg != c.neg:
                     return False
                 return True
@@ -618,7 +627,7 @@ class Engine:
             for (cond, val), s2 in zip(alts, states):
                 ok = True
                 if cond is not None:
-                    ok = self.assume(s2, cond)
+                    ok = self.assume(s2, Cond(cond.kind, cond.a, cond.b, cond.neg))
                 if not ok:
                     continue
                 fr2 = s2.frames[-1]
